@@ -156,7 +156,7 @@ Proof.
   assert (E : bk_err (run false bd0 (newBook 1 100) refute_ops) = 0%N) by (vm_compute; reflexivity).
   assert (D : dag (run false bd0 (newBook 1 100) refute_ops)).
   { apply (check_rank_dag _ (rank_candidate (run false bd0 (newBook 1 100) refute_ops))). vm_compute. reflexivity. }
-  specialize (H E D). apply check_all_sound in H. vm_compute in H. discriminate.
+  specialize (H E D). apply check_all_sound in H. clear E D. vm_compute in H. discriminate H.
 Qed.
 
 (** the proposed fix repairs the witness; what the equation checker reports on the unchanged code *)
